@@ -1009,3 +1009,97 @@ func intFromPred(v ssa.Value, b *ssa.BasicBlock, pi int, d int) (int64, bool) {
 	}
 	return 0, false
 }
+
+// walkUnder explores every path from the entry of f along which each branch whose condition decide can
+// settle goes the settled way (the others go both ways). visit sees each instruction together with a
+// resolver for integer φs: a φ is the constant that came in over the edge the path took. ok is false when
+// the exploration was cut short.
+func walkUnder(f *ssa.Function, decide func(cond ssa.Value) (val, known bool), visit func(i ssa.Instruction, phiConst func(ssa.Value) (int64, bool))) (ok bool) {
+	if len(f.Blocks) == 0 {
+		return true
+	}
+	type state struct {
+		b, prev *ssa.BasicBlock
+		env     string
+	}
+	type item struct {
+		b, prev *ssa.BasicBlock
+		env     map[*ssa.Phi]int64
+	}
+	envKey := func(e map[*ssa.Phi]int64) string {
+		var ks []string
+		for p, v := range e {
+			ks = append(ks, fmt.Sprintf("%s=%d", p.Name(), v))
+		}
+		sort.Strings(ks)
+		return strings.Join(ks, ",")
+	}
+	seen := map[state]bool{}
+	work := []item{{f.Blocks[0], nil, map[*ssa.Phi]int64{}}}
+	for steps := 0; len(work) > 0; steps++ {
+		if steps > 50000 {
+			return false
+		}
+		it := work[len(work)-1]
+		work = work[:len(work)-1]
+		st := state{it.b, it.prev, envKey(it.env)}
+		if seen[st] {
+			continue
+		}
+		seen[st] = true
+		env := map[*ssa.Phi]int64{}
+		for k, v := range it.env {
+			env[k] = v
+		}
+		var resolve func(v ssa.Value) (int64, bool)
+		resolve = func(v ssa.Value) (int64, bool) {
+			for {
+				switch x := v.(type) {
+				case *ssa.Convert:
+					v = x.X
+					continue
+				case *ssa.ChangeType:
+					v = x.X
+					continue
+				}
+				break
+			}
+			if k, isK := constInt(v); isK {
+				return k, true
+			}
+			if p, isPhi := v.(*ssa.Phi); isPhi {
+				k, ok := env[p]
+				return k, ok
+			}
+			return 0, false
+		}
+		for _, ins := range it.b.Instrs {
+			if p, isPhi := ins.(*ssa.Phi); isPhi {
+				delete(env, p)
+				for k, pred := range it.b.Preds {
+					if pred == it.prev {
+						if c, ok := resolve(p.Edges[k]); ok {
+							env[p] = c
+						}
+					}
+				}
+				continue
+			}
+			visit(ins, resolve)
+		}
+		if cond := blockIf(it.b); cond != nil && len(it.b.Succs) == 2 {
+			if v, known := decide(cond.Cond); known {
+				if v {
+					work = append(work, item{it.b.Succs[0], it.b, env})
+				} else {
+					work = append(work, item{it.b.Succs[1], it.b, env})
+				}
+				continue
+			}
+		}
+		for _, sc := range it.b.Succs {
+			work = append(work, item{sc, it.b, env})
+		}
+	}
+	return true
+}
